@@ -4,6 +4,7 @@ package simapp
 // Everything here goes through the modules' own genesis / Msg servers; nothing of orbiter is mocked.
 
 import (
+	"bytes"
 	"math/big"
 	"encoding/hex"
 	"encoding/json"
@@ -86,6 +87,8 @@ type World struct {
 	// Hyperlane fixture
 	IsmID, HookH0, IgpI1, MailboxM0, MailboxM1 hyputil.HexAddress
 	TokenT0, TokenT1                           hyputil.HexAddress
+	TokenSyn                                   hyputil.HexAddress // id the synthetic token WILL get (Env hyp-synthetic); not in W0
+	DenomSyn                                   string
 
 	// UseInstr != nil: Recv goes through the instrumented stand instead of the app's own stack
 	UseInstr *Instr
@@ -96,9 +99,25 @@ type World struct {
 
 var silentLogger = log.NewNopLogger()
 
+// The example application enables only COLLATERAL Hyperlane tokens (simapp/app.yaml, warp.enabled_tokens = [1]).
+// The harness runs the same application with SYNTHETIC tokens enabled as well: a superset deployment (nothing
+// changes until a synthetic token is created; W0 is byte-identical) in which "the route's token has another
+// denomination than the coin received" is reachable with a token the account can actually hold.
+var synthEnabledOK = func() bool {
+	old := []byte("- 1 # Enable Collateral tokens")
+	if !bytes.Contains(AppConfigYAML, old) {
+		return false
+	}
+	AppConfigYAML = bytes.Replace(AppConfigYAML, old, []byte("- 1\n        - 2"), 1)
+	return true
+}()
+
 // NewWorld boots SimApp over a MemDB and installs the fixture. Deterministic: fixed keys, fixed times.
 func NewWorld() (*World, error) {
 	setSDKConfig()
+	if !synthEnabledOK {
+		return nil, fmt.Errorf("simapp/app.yaml: the warp module's enabled_tokens line was not found; the fixture cannot enable synthetic tokens")
+	}
 	app, err := NewSimApp(silentLogger, dbm.NewMemDB(), nil, true, sims.EmptyAppOptions{}, baseapp.SetChainID(chainID))
 	if err != nil {
 		return nil, fmt.Errorf("NewSimApp: %w", err)
@@ -336,7 +355,48 @@ func (w *World) setupHyperlane() error {
 		ReceiverDomain: 1, ReceiverContract: "0x0000000000000000000000000000000000000000000000000000000000000001", Gas: math.NewInt(100)}}); err != nil {
 		return err
 	}
+	// the identifier the synthetic token of Env(hyp-synthetic) will receive: learned on a discarded branch
+	// (no other operation of any alphabet creates Hyperlane objects, so it is the same in every state)
+	bc, _ := ctx.CacheContext()
+	id, err := w.createSynthetic(bc)
+	if err != nil {
+		return err
+	}
+	w.TokenSyn, w.DenomSyn = id, "hyperlane/"+id.String()
 	return nil
+}
+
+// createSynthetic: a synthetic token on mailbox M0 with a route to domain 1; 1000 of it minted to the orbiter
+// account (what a remote transfer addressed to that account leaves there), 5000 to the channel-0 escrow (it has
+// been sent out over IBC before, so a voucher can return) and 1000 to alice.
+func (w *World) createSynthetic(ctx sdk.Context) (hyputil.HexAddress, error) {
+	var r warptypes.MsgCreateSyntheticTokenResponse
+	bz, err := w.call(ctx, &warptypes.MsgCreateSyntheticToken{Owner: w.Alice.String(), OriginMailbox: w.MailboxM0})
+	if err != nil {
+		return hyputil.HexAddress{}, err
+	}
+	if err := r.Unmarshal(bz); err != nil {
+		return hyputil.HexAddress{}, err
+	}
+	if _, err = w.call(ctx, &warptypes.MsgEnrollRemoteRouter{Owner: w.Alice.String(), TokenId: r.Id, RemoteRouter: &warptypes.RemoteRouter{
+		ReceiverDomain: 1, ReceiverContract: "0x0000000000000000000000000000000000000000000000000000000000000001", Gas: math.ZeroInt()}}); err != nil {
+		return hyputil.HexAddress{}, err
+	}
+	denom := "hyperlane/" + r.Id.String()
+	for _, to := range []struct {
+		a sdk.AccAddress
+		n int64
+	}{{w.Orb, 1000}, {w.Escrow0, 5000}, {w.Alice, 1000}} {
+		c := sdk.NewCoins(sdk.NewCoin(denom, math.NewInt(to.n)))
+		if err := w.App.BankKeeper.MintCoins(ctx, warptypes.ModuleName, c); err != nil {
+			return hyputil.HexAddress{}, err
+		}
+		if err := w.App.BankKeeper.SendCoinsFromModuleToAccount(ctx, warptypes.ModuleName, to.a, c); err != nil {
+			return hyputil.HexAddress{}, err
+		}
+	}
+	w.App.TransferKeeper.SetTotalEscrowForDenom(ctx, sdk.NewCoin(denom, math.NewInt(5000))) // ICS-20's own escrow bookkeeping
+	return r.Id, nil
 }
 
 // kvStoreNames returns the names of all KV stores (sorted), memory/transient stores excluded.
